@@ -329,12 +329,36 @@ fn run(ctx: &RunCtx) -> Report {
                 spec.public_ip = Some(spec.ip);
                 report.probe("adaptive_with_configured_public_ip", 1);
             }
+            // reachable nodes, 1 run in 3 (own random stream): *confused at first* - for the first 20..280 s every
+            // peer reports a wrong, unreachable address (a NAT binding that went away, a confused or lying first
+            // responder); then they report the true one and a lookup brings the new votes. The true address is
+            // probed when it is voted, however recently another address was probed.
+            let mut crng = Rng::new(crate::rng::key(ctx.seed, &[crate::rng::tag("c18-confused-first")]));
+            let confused_until: Option<u64> = if situation == 0 && crng.chance(1, 3) { Some(crng.range(20, 280) * SEC) } else { None };
+            if confused_until.is_some() {
+                let wrong = SocketAddrV4::new(pub_ip(&mut crng), 6881);
+                for i in 0..rawnet.len() {
+                    rawnet.with_peer(i, |p| p.ip_vote = Some(wrong));
+                }
+                report.probe("adaptive_wrong_address_voted_first", 1);
+            }
             let switch_at = rng.range(60, 700) * SEC;
             let wrong_later = SocketAddrV4::new(pub_ip(&mut rng), 6881);
             let explicit_server = rng.chance(1, 6);
             spec.server_mode = explicit_server;
             let node = sim.add_node(spec);
             let minutes = rng.range(31, 50);
+            if let Some(until) = confused_until {
+                let rn = rawnet.clone();
+                let t0 = sim.now();
+                let t = crng.id();
+                sim.at(t0 + until, move |sim| {
+                    for i in 0..rn.len() {
+                        rn.with_peer(i, |p| p.ip_vote = None);
+                    }
+                    sim.find_node(node, t);
+                });
+            }
             if situation == 3 {
                 let rn = rawnet.clone();
                 let t0 = sim.now();
